@@ -3,8 +3,8 @@ C01 — vocabulary needed to STATE the round-trip theorems about `EdbVerif.QL`.
 
 `Safe e` is a decidable, purely syntactic predicate on ASTs:
   * the normal form the parser produces (`WF` part): no unary minus directly over a numeric
-    constant (`reduce_MINUS_Expr` folds it), flattened non-empty `Indirection`, atoms are
-    atom tokens;
+    constant (`reduce_MINUS_Expr` folds it), flattened non-empty `Indirection`, flattened
+    `Path` (the base of pointer steps is not itself a path with steps), atoms are atom tokens;
   * the *parenthesisation side conditions* under which the REAL printer's output re-parses to
     the same tree.  They are not vacuous: the real printer violates them (see the
     `…_counterexample` theorems in `Props/C01.lean`, replayed on the real code):
@@ -12,7 +12,9 @@ C01 — vocabulary needed to STATE the round-trip theorems about `EdbVerif.QL`.
         (unary `-`/`+`, `NOT (…)`, `EXISTS (…)`, `DISTINCT (…)`, `<T>…`, `DETACHED …`, a folded
         negative literal) of level ≥ the operator's lookahead level;
       - the operand of a prefix production of level p must be parsed as one unit at level p
-        (an `Indirection` prints as `(arg)[i]` and is a unit only up to the level of `[`).
+        (an `Indirection` prints as `(arg)[i]` and is a unit only up to the level of `[`; a
+        `Path` with pointer steps prints as `base.s` and is a unit only up to the level of `.`,
+        which is BELOW `DETACHED`).
 Core Lean only.
 -/
 import EdbVerif.Model.QL
@@ -26,6 +28,10 @@ def isNumE : Expr → Bool
 
 def isIndexE : Expr → Bool
   | .index _ _ => true
+  | _ => false
+
+def isPathE : Expr → Bool
+  | .path _ _ _ => true
   | _ => false
 
 /-- levels of the prefix productions that are still open at the right end of `pp e`
@@ -43,11 +49,13 @@ def topLvl : Nat := 1000
 /-- the largest minimum level at which `pp e` is still consumed as ONE expression -/
 def unitLvl : Expr → Nat
   | .index _ _ => bracketLvl
+  | .path _ _ _ => dotLvl
   | _ => topLvl
 
-/-- number of `[i]` suffixes -/
+/-- number of `[i]` / `.s` suffixes (iterations of the postfix loop) -/
 def idxCount : Expr → Nat
   | .index _ idx => idx.length
+  | .path _ _ ss => ss.length + 1
   | _ => 0
 
 mutual
@@ -67,6 +75,7 @@ mutual
     | .array es => safeList es
     | .set es => safeList es
     | .index a idx => safe a && safeList idx && !idx.isEmpty && !isIndexE a
+    | .path b _ _ => safe b && !isPathE b
   def safeList : List Expr → Bool
     | [] => true
     | e :: es => safe e && safeList es
@@ -94,6 +103,7 @@ mutual
     | .array es => wfList es
     | .set es => wfList es
     | .index a idx => wf a && wfList idx && !idx.isEmpty && !isIndexE a
+    | .path b _ _ => wf b && !isPathE b
   def wfList : List Expr → Bool
     | [] => true
     | e :: es => wf e && wfList es
@@ -120,6 +130,7 @@ mutual
     | .array es => needList es + 3
     | .set es => needList es + 3
     | .index a idx => need a + needList idx + 4
+    | .path b _ ss => need b + ss.length + 4
   def needList : List Expr → Nat
     | [] => 1
     | e :: es => need e + needList es + 3
